@@ -328,7 +328,8 @@ class MathW:
         if not is_sym(x):
             return _math.exp(x)
         x = x if isinstance(x, SR) else SR(lift(x))
-        if bool(x > symx.EXPMAX):
+        ov = x > symx.EXPMAX
+        if not E().surely_false(sb(ov)) and bool(ov):
             raise OverflowError("math range error")
         return SR(E().app("exp", x.e))
 
